@@ -4,8 +4,10 @@ import gens, blk, compcases as cc
 from capi import Lib, Buf
 
 THEOREMS = ["C09_fast_generic_cap", "C09_fast_extState", "C09_fast_extState_fastReset", "C09_hc_emitter_cap", "C09_hc_emitter_encoding"]
-CORRESPONDENCE = ["Model.FastApi == liblz4 for every capacity tried: return value, bytes, and the model's write high-water mark <= capacity",
+CORRESPONDENCE = [cc.MID_CORR,
+                  "Model.FastApi == liblz4 for every capacity tried: return value, bytes, and the model's write high-water mark <= capacity",
                   "Model.HcEmit.encodeSequence == LZ4HC_encodeSequence (static function reached by #include): return code, bytes, new op/ip/anchor, for literal and match lengths on every length-encoding boundary x every room value around both limit checks"]
+ORACLES = ["block", "mid"]
 RULE = ("inputs weighted to incompressible / barely compressible data, long literal runs and long matches straddling 255-multiples; "
         "EVERY capacity 0..bound+1 for inputs <= 48 bytes, capacities dense around each sequence boundary of the bound-capacity output and random otherwise; "
         "entry points {default, fast(accel), extState, fastReset history, HC levels, HC extState, fast_continue, HC_continue}; destination buffer has EXACTLY the "
@@ -18,18 +20,20 @@ ASSUMPTIONS = ["64-bit little-endian target"]
 
 def build(tier):
     from vlib import build_lib
-    return {"lib": build_lib("default"), "hcemit": cc.hcemit_lib()}
+    return {"lib": build_lib("default"), "hcemit": cc.hcemit_lib(), "midstate": cc.midstate_lib()}
 
 def gen_cases(tier, seed):
     rng = random.Random(seed * 131 + 9)
     n = {"quick": 64, "search": 256, "thorough": 600}[tier]
-    return [{"bseed": rng.randrange(1 << 48), "count": 6, "mode": ["small", "small", "mid", "mid", "big", "bad", "emit", "litrun"][i % 8]} for i in range(n)]
+    cases = [{"bseed": rng.randrange(1 << 48), "count": 6, "mode": ["small", "small", "mid", "mid", "big", "bad", "emit", "litrun"][i % 8]} for i in range(n)]
+    cases += cc.mid_gen_cases(rng, tier, 0.5)
+    return cases
 
 def worker_init(ctx):
     import ctypes
     st = blk.worker_init(ctx)
     st["hcemit"] = ctypes.CDLL(ctx["hcemit"])
-    return st
+    return cc.mid_worker(st, ctx)
 
 def seq_boundaries(out):
     """output offsets at which a sequence of the block ends"""
@@ -110,7 +114,19 @@ def run_variant(st, rng, res, info, fam, src, caps):
             check(st, res, info, fam, fam, p, src, cap, r, out, strict_hist=first)
     res["stats"]["fam_" + fam] += 1
 
+def mid_judge(st):
+    def judge(kind, src, cap, r, consumed, out):
+        n = len(src)
+        if r < 0 or r > max(cap, 0):
+            return "returned %d with capacity %d" % (r, cap)
+        if kind == "fr" and cap >= cc.bound(n) and r <= 0:
+            return "failed (%d) although dstCapacity %d >= LZ4_compressBound(%d)" % (r, cap, n)
+        return None
+    return judge
+
 def run_case(st, case):
+    if case.get("mode") == "hcmid":
+        return cc.run_mid_case(st, case, mid_judge(st))
     rng = random.Random(case["bseed"])
     res = cc.new_res()
     lib = st["lib"]
